@@ -10,7 +10,7 @@ META = {
         "iterator resp. over one IndexedRandom::choose_multiple(rng, self.size) sample of the population slice, that "
         "the tournament size guard is the strict population.size() < size, and that no reversing/keyed adaptor "
         "(rev, max_by, min_by, Reverse, map) sits between the population and the reduction. It does NOT decide the "
-        "k-subset sampling law itself: that is rand's choose_multiple contract (trusted)."),
+        "k-subset sampling law itself: that is rand's choose_multiple contract (trusted). (R07.5) the configured size is the size used: Tournament::new stores its argument, of_size::<N>() stores NonZeroUsize::new(N)'s payload (the inline constant's MIR is analysed), binary() is of_size::<2>()."),
     "rules": {
         "R07.1": "Best::select returns ok_or(Iterator::max(IntoIterator::into_iter(population))); Worst likewise with Iterator::min; on every path",
         "R07.2": "Tournament::select's success path returns Iterator::max over exactly one choose_multiple(population.as_ref(), rng, self.size) call",
